@@ -234,6 +234,21 @@ def run(ctx: Ctx) -> None:
                   ok=f"all {len(raises)} rejection sites are dominated by draining the request stream to EOS",
                   bad="a rejection can be raised before the request stream is drained: the leftover bytes desynchronise the next request on the same connection")
 
+    # ... and a drain is itself a blocking read: it may follow only a failure that left the stream at a message boundary
+    # (IPCError = a complete batch was read and then failed validation).  After a failure of the IPC reader itself
+    # (pa.ArrowInvalid, OSError, anything unnamed) the bytes the peer sent may already be exhausted -- reading on
+    # waits for bytes that never come while the peer waits for its reply.
+    for hnode in [h for n in walk_scope(rr.node) if isinstance(n, ast.Try) for h in n.handlers]:
+        hd = [d for d in drains if any(x is d for st in hnode.body for x in ast.walk(st))]
+        if not hd:
+            continue
+        types = model.handler_types(hnode)
+        wide = [t for t in types if not model.is_sub(t, "IPCError")]
+        ctx.check(not wide, "RF-DOM", "drain-after-failure-only-at-message-boundary", rr, hd[0],
+                  ok=f"the handler that reads on to EOS covers only {types}: the failed batch had been read completely",
+                  bad=f"the handler that reads on to EOS also covers {wide}: after the IPC reader itself failed (corrupted or truncated message) the server blocks reading bytes that will never "
+                  "arrive, and the peer is left waiting for a reply")
+
     # ------------------------------------------------------------------ D: serve() loop ends only on allowed classes
     scfg = cfg_of(serve.node)
     so_calls = [c for c in calls(serve) if any(t.fq == SERVE_ONE for t in ctx.res.resolve(serve, c))]
